@@ -196,6 +196,73 @@ theorem C08_uncovered_day_missing (ps : List Period) (d0 d1 : Int)
       exact ih (fun q hq => h q (List.mem_cons_of_mem _ hq))
   rw [if_pos this]
 
+/-- readings with values at strictly increasing instants -/
+def Tiling : List (Int × Option Rat) → Prop
+  | (t0, v) :: (t1, w) :: rest => t0 < t1 ∧ v.isSome ∧ Tiling ((t1, w) :: rest)
+  | _ => True
+
+theorem tiling_head_le_last : ∀ (rs : List (Int × Option Rat)) (hne : rs ≠ []), Tiling rs →
+    (rs.head hne).1 ≤ (rs.getLast hne).1
+  | [_], _, _ => by simp
+  | (t0, v) :: (t1, w) :: rest, _, h => by
+    have ih := tiling_head_le_last ((t1, w) :: rest) (by simp) h.2.2
+    simp only [List.head_cons, List.getLast_cons_cons] at ih ⊢
+    exact le_trans h.1.le ih
+
+/-- readings that tile `[d0,d1)` without a gap (first at `d0`, the one after the last at `d1`, all present)
+cover every minute of it -/
+theorem covered_tiling : ∀ (rs : List (Int × Option Rat)) (hne : rs ≠ []), Tiling rs →
+    dayCovered (periods rs) (rs.head hne).1 (rs.getLast hne).1 = (rs.getLast hne).1 - (rs.head hne).1
+  | [_], _, _ => by simp [periods, dayCovered]
+  | (t0, v) :: (t1, w) :: rest, _, h => by
+    obtain ⟨hlt, hv, ht⟩ := h
+    have ih := covered_tiling ((t1, w) :: rest) (by simp) ht
+    have hmono : t1 ≤ (((t1, w) :: rest).getLast (by simp)).1 := by
+      have := tiling_head_le_last ((t1, w) :: rest) (by simp) ht
+      simpa using this
+    obtain ⟨x, hx⟩ := Option.isSome_iff_exists.mp hv
+    simp only [periods, dayCovered, List.map_cons, List.sum_cons, List.head_cons, List.getLast_cons_cons] at ih ⊢
+    set e := (((t1, w) :: rest).getLast (by simp)).1 with he
+    have h1 : covered ⟨t0, t1, v⟩ t0 e = t1 - t0 := by
+      simp only [covered, hx]
+      unfold overlap; omega
+    -- the remaining periods all start at or after t1: their overlap with [t0,e) is their overlap with [t1,e)
+    have h2 : ∀ (l : List (Int × Option Rat)), Tiling l → (∀ hl : l ≠ [], t1 ≤ (l.head hl).1) →
+        ((periods l).map fun p => covered p t0 e) = ((periods l).map fun p => covered p t1 e) := by
+      intro l
+      induction l with
+      | nil => intro _ _; simp [periods]
+      | cons a l ihl =>
+        intro hT hh
+        cases l with
+        | nil => simp [periods]
+        | cons b l =>
+          obtain ⟨a0, av⟩ := a
+          obtain ⟨b0, bv⟩ := b
+          have ha : t1 ≤ a0 := hh (by simp)
+          have := ihl hT.2.2 (fun _ => by simp only [List.head_cons]; exact le_trans ha hT.1.le)
+          simp only [periods, List.map_cons, this]
+          congr 1
+          simp only [covered]
+          cases av <;> simp only
+          unfold overlap
+          have := hT.1
+          omega
+    rw [h2 ((t1, w) :: rest) ht (fun _ => by simp), h1, ih]
+    omega
+
+/-- **a day tiled by present readings is covered completely and equals the sum of its readings**:
+the sub-daily rule for a fully covered day, from the readings alone -/
+theorem C08_fully_covered_day (rs : List (Int × Option Rat)) (hne : rs ≠ []) (h : Tiling rs)
+    (hlt : (rs.head hne).1 < (rs.getLast hne).1) :
+    coverage (periods rs) (rs.head hne).1 (rs.getLast hne).1 = 1 := by
+  unfold coverage
+  rw [covered_tiling rs hne h]
+  have : (((rs.getLast hne).1 - (rs.head hne).1 : Int) : Rat) ≠ 0 := by
+    have : (rs.getLast hne).1 - (rs.head hne).1 ≠ 0 := by omega
+    exact_mod_cast this
+  field_simp
+
 /-! ### Non-vacuity: a 30-day period over thirty 24-hour days, billed 300 -/
 example : ((days ((List.range 31).map fun i => (i : Int) * 1440)).map
     fun d => share ⟨0, 43200, some 300⟩ d.1 d.2).sum = 300 := by
